@@ -179,6 +179,7 @@ def c01(tier, seed):
     c = Check("C01", tier, seed)
     thorough = tier == T
     c.model_check("MC_API.tla", "MC_API.cfg" if thorough else "MC_API_quick.cfg", "MC_API", workers=8, timeout=1500)
+    c.model_check("MC_API.tla", "MC_API_full.cfg" if thorough else "MC_API_full_quick.cfg", "MC_API_full", workers=12, timeout=2400)
     if thorough:
         # extra (not needed for the verdict): TLAPS proves that every round shape used by the ciphers is invertible for an
         # arbitrary round function (spec/proofs/RoundInverse.tla)
@@ -271,6 +272,8 @@ def c12(tier, seed):
     thorough = tier == T
     r = c.model_check("MC_API.tla", "MC_API.cfg" if thorough else "MC_API_quick.cfg", "MC_API", workers=8, timeout=1500,
                       must_cover=("New", "Clone", "FromEnc", "Enc", "Dec", "Drop"))
+    # complete abstract state space (VIEW without the operation counter): invariants after sequences of any length
+    c.model_check("MC_API.tla", "MC_API_full.cfg" if thorough else "MC_API_full_quick.cfg", "MC_API_full", workers=12, timeout=2400)
     scen_path = os.path.join(c.work, "api-scenarios.ndjson")
     n = scen.extract(r.out, scen_path, limit=(4000 if thorough else 400), seed=seed)
     c.notes["tlc_generated_scenarios"] = n
@@ -336,6 +339,7 @@ def c15(tier, seed):
     c = Check("C15", tier, seed)
     thorough = tier == T
     c.model_check("Detect.tla", "Detect.cfg", "Detect", workers=8, timeout=1200, must_cover=("Load", "Detect", "Store", "Send"))
+    c.model_check("MC_API.tla", "MC_API_full.cfg" if thorough else "MC_API_full_quick.cfg", "MC_API_full", workers=12, timeout=2400)
     if thorough:
         # extra (not needed for the verdict): Apalache discharges an inductive invariant of the detection protocol, i.e. ArmStable
         # for behaviours of any length (data sizes bounded by the generators)
